@@ -201,6 +201,10 @@ pub struct MpkM {
 pub struct UskM {
     /// right -> versions held (newest first, as last observed/predicted)
     pub held: BTreeMap<RightM, Vec<Ver>>,
+    /// secrets held without their ML-KEM part (as last observed): they cannot open a
+    /// hybridized encapsulation. Only differs from the right's flavour in histories where the
+    /// listed id-reuse finding made an update drop the hybridization of an existing secret.
+    pub classic: BTreeSet<(RightM, Ver)>,
 }
 
 #[derive(Clone, Debug, PartialEq, Eq)]
@@ -345,7 +349,7 @@ impl Model {
             return Err(());
         }
         self.registered += 1;
-        Ok(UskM { held: rights.into_iter().map(|r| { let v = self.master[&r][0].ver; (r, vec![v]) }).collect() })
+        Ok(UskM { held: rights.into_iter().map(|r| { let v = self.master[&r][0].ver; (r, vec![v]) }).collect(), classic: BTreeSet::new() })
     }
 
     /// `refresh` of an issued key always succeeds. Rights absent from the master key are
@@ -403,6 +407,6 @@ impl MpkM {
 
 impl UskM {
     pub fn opens(&self, enc: &EncM) -> bool {
-        enc.targets.iter().any(|(r, v)| self.held.get(r).is_some_and(|h| h.contains(v)))
+        enc.targets.iter().any(|(r, v)| self.held.get(r).is_some_and(|h| h.contains(v)) && !(enc.hybrid && self.classic.contains(&(r.clone(), *v))))
     }
 }
